@@ -45,6 +45,11 @@ pub struct TlsMaterial {
 
 impl TlsMaterial {
     pub fn generate() -> Result<TlsMaterial, String> {
+        if !cfg!(feature = "tls") {
+            // the library under test was built without its `tls` feature: no shim offers TLS, every
+            // TLS workload is skipped (the same paths as under Miri)
+            return Err("the harness was built against msql-srv without its tls feature".into());
+        }
         let scert = rcgen::generate_simple_self_signed(vec!["localhost".to_string()]).map_err(|e| e.to_string())?;
         let ccert = rcgen::generate_simple_self_signed(vec!["vmon-client".to_string()]).map_err(|e| e.to_string())?;
         let s_der = scert.serialize_der().map_err(|e| e.to_string())?;
